@@ -16,8 +16,8 @@ def scope(field, exp, got, info):
 
 SPEC = dict(
     sig="expr", scope=scope,
-    sc=dict(family="expr", n=(150, 3000), mc=dict(max_calls=10, after_end=0), invariants=["FlowRefinesSem"], layouts=True),
-    cs=[dict(family="expr", n=(150, 3000), paths=(2, 4), calls=16, layouts=True,
+    sc=dict(family="expr", n=(150, 3000), mc=dict(max_calls=16, after_end=0), invariants=["FlowRefinesSem"], layouts=True),
+    cs=[dict(family="expr", n=(150, 3000), paths=(2, 4), calls=30, layouts=True,
              label="YarnTrace: random deep expression trees (depth <= 5) in random parenthesisation / spelling")],
     nontrivial=lambda c: True,
     rule="(1) ALL expression trees of depth <= 2 over the 14 binary and 2 unary operators with typed probe leaves (MC_Expr: 26,964 trees), each "
